@@ -105,11 +105,20 @@ func (s *store) set(path string, src keyvalue.FileRecord, contents blob.Blob) er
 }
 
 type transaction struct {
-	ctx     context.Context
-	abort   context.CancelFunc
-	store   *store
-	op      keyvalue.OpID
-	results []keyvalue.OpResult
+	ctx         context.Context
+	abort       context.CancelFunc
+	store       *store
+	op          keyvalue.OpID
+	results     []keyvalue.OpResult
+	releaseOnce sync.Once
+}
+
+// release ends the transaction and unlocks the store, exactly once no matter how often Commit and Abort are called.
+func (t *transaction) release() {
+	t.releaseOnce.Do(func() {
+		t.abort()
+		t.store.mu.Unlock()
+	})
 }
 
 func (s *store) Transaction(options keyvalue.TransactionOptions) (keyvalue.Transaction, error) {
@@ -180,13 +189,11 @@ func (t *transaction) SetHandler(path string, src keyvalue.FileRecord, contents 
 }
 
 func (t *transaction) Commit(ctx context.Context) ([]keyvalue.OpResult, error) {
-	t.abort()
-	t.store.mu.Unlock()
+	t.release()
 	return t.results, nil
 }
 
 func (t *transaction) Abort() error {
-	t.abort()
-	t.store.mu.Unlock()
+	t.release()
 	return nil
 }
